@@ -228,6 +228,47 @@ func runC20(r *Report) {
 			widthsDoc: "2x2 [ver/nmethods, port], 2x4 [request head, IPv4], 1x1 [domain length], 1x16 [IPv6], 2 variable [methods, domain]",
 			codes:     map[int64]bool{1: true, 7: true, 8: true}, methodReply: true, cmds: []int{1, 3}})
 	}
+	// the adapter's greeting reader: after a first read of at least 2 bytes it tops the buffer up to
+	// exactly 2+NMETHODS bytes before it looks at the methods: the top-up guard, the top-up window and
+	// the methods window use the same bound
+	if gh := r.need("R-C20-2", "internal/protocol/adapter", "SocksAdapter.handleHandshake"); gh != nil {
+		var methodsHi ssa.Value
+		Instrs(gh, func(in ssa.Instruction) {
+			if sl, ok := in.(*ssa.Slice); ok && sl.Low != nil && sl.High != nil {
+				if k, isC := ConstInt(sl.Low); isC && k == 2 {
+					methodsHi = sl.High
+				}
+			}
+		})
+		nTop := 0
+		for _, rf := range Calls(gh, false, "io:ReadFull") {
+			sl, ok := Arg(rf, 1).(*ssa.Slice)
+			if !ok || sl.High == nil || sl.Low == nil {
+				continue
+			}
+			nTop++
+			hi := linOf(sl.High, 0)
+			guard := false
+			for _, ft := range Facts(rf.Block()) {
+				bo, isB := ft.Cond.(*ssa.BinOp)
+				if !isB || !((bo.Op == token.LSS && ft.Pol) || (bo.Op == token.GEQ && !ft.Pol)) {
+					continue
+				}
+				if stripValue(bo.X) == stripValue(sl.Low) {
+					g := linOf(bo.Y, 0)
+					if g.ok && hi.ok && g.geq(hi) && hi.geq(g) {
+						guard = true
+					}
+				}
+			}
+			mh := linOf(methodsHi, 0)
+			same := methodsHi != nil && mh.ok && hi.ok && mh.geq(hi) && hi.geq(mh)
+			r.Ob("R-C20-2", CallPos(rf), guard && same, fmt.Sprintf("the greeting is topped up when fewer than %s bytes arrived, up to %s, and the methods are read up to %s (all three must be 2+NMETHODS)", "the guard bound", hi.String(), mh.String()), "adapter.handleHandshake", "greeting-topped-up")
+		}
+		if nTop == 0 {
+			r.Fail("R-C20-2", gh.Pos(), "the adapter's greeting top-up read was not found", "adapter.handleHandshake", "greeting-topped-up")
+		}
+	}
 	// sibling implementation: the server-side SOCKS adapter parses the same request
 	if ah := r.need("R-C20-2", "internal/protocol/adapter", "SocksAdapter.handleRequest"); ah != nil {
 		checkSocksNegotiation(r, ah, "adapter.handleRequest", socksNegCfg{
